@@ -17,10 +17,14 @@ META = dict(
                "visited state; the bound is also checked directly on the implementation's log (#yields - #finished callbacks).",
     level_note="Proof is about the model; model = code is established by trace acceptance on generated schedules (a sample). "
                "Trusted: Coq kernel + vm_compute, the shims and the raw-log -> event grouping (harness/shims.py to_lts, "
-               "fail-closed), asyncio's task-step atomicity, the virtual-time loop. 'Unfinished' counts a message from the "
-               "broker's yield until its callback task's done-callback has run (slightly more than the statement asks). The "
+               "fail-closed), asyncio's task-step atomicity, the virtual-time loop. In the model 'unfinished' counts a message from the "
+               "broker's yield until its callback task's done-callback has run (slightly more than the statement asks); in the "
+               "oracle a message is unfinished from the broker's yield until its last observable processing event: the end of its "
+               "callback, or - if later - the completion of its acknowledgement, the end of every task created while its callback "
+               "ran, any later save / ack / hook event of that message. The "
                "statement's A in 1..4, P in 0..4 is proved for all A > 0 and all P.",
-    rule="case = receiver scenario (A, P, N, wait_tasks_timeout, stop instant, messages with arrival / kind / duration / outcome); "
+    rule="case = receiver scenario (A, P, N, wait_tasks_timeout, stop instant, messages with arrival / kind / duration / outcome / "
+         "hook and result-backend failures incl. an outage over consecutive messages / acknowledgements that take time); "
          "non-trivial iff finite A, backlog >= A+P+3 arriving within a burst shorter than the tasks (the worker saturates); "
          "distinct by canonical scenario",
     trusted_base=["model: coq/theories/RecvLTS.v (hand-written LTS of prefetcher / runner / look-ahead / hand-over queue)",
@@ -29,30 +33,60 @@ META = dict(
     assumptions=["the broker's listen() generator takes a message only at its yield (scripted broker)",
                  "the broker generator raises nothing but StopAsyncIteration"],
 )
-PROF = dict(limited_only=True, backlog=True, stop_p=.2, n_p=.15, ends_p=.1, wtt_p=.2)
+PROF = dict(limited_only=True, backlog=True, stop_p=.2, n_p=.15, ends_p=.1, wtt_p=.2, outage_p=.12, aw_p=.1)
 PROF_MIX = dict(limited_only=True, stop_p=.3, n_p=.25)
 
 
+PROC_TAGS = ("cb.start", "cb.end", "hook.pre", "hook.post", "hook.post_save", "hook.on_error", "hook.aw", "hook.aw.end", "body.in",
+             "body.cleanup", "body.out", "save", "ack", "ack.end", "bg.new", "bg.done")
+
+
 def oracle(sc, obs):
-    """literal statement: with finite A and P, (#messages taken from the broker - #finished processing) <= A+P+1 at every instant"""
+    """literal statement: with finite A and P, (#messages taken from the broker - #finished processing) <= A+P+1 at every instant.
+    A message has finished processing at its LAST observable processing event, which is no earlier than the end of its
+    callback: if an acknowledgement that was begun completes later, a task created while its callback ran is still
+    running, or a save / ack / hook of that message is logged later, the message was not finished before that.  It never
+    finishes within the observation if its callback has not ended, an acknowledgement that was begun has not completed, or
+    a task created for it is still alive at the end of the log."""
     out = []
     if not R.limited(sc):
         return out
     f = R.Facts(sc, obs)
     bound = sc["A"] + sc["P"] + 1
+    last, cbended, pending = {}, set(), {}
+    for k, e in enumerate(f.raw):
+        if e[1] in PROC_TAGS:
+            last[e[2]] = k
+            if e[1] == "cb.end":
+                cbended.add(e[2])
+            elif e[1] in ("ack", "hook.aw", "bg.new"):
+                pending[e[2]] = pending.get(e[2], 0) + 1
+            elif e[1] in ("ack.end", "hook.aw.end", "bg.done"):
+                pending[e[2]] = pending.get(e[2], 0) - 1
+    fin_at = {}
+    for i in cbended:
+        if not pending.get(i):
+            fin_at.setdefault(last[i], []).append(i)
     taken = fin = peak = 0
-    for e in f.raw:
+    when = None
+    late = []
+    for k, e in enumerate(f.raw):
         if e[1] == "TAKE":
             taken += 1
-        elif e[1] == "cb.end":
+        for i in fin_at.get(k, []):
             fin += 1
+            if e[1] != "cb.end":
+                late.append(i)
         if taken - fin > peak:
             peak = taken - fin
             when = e[0]
     if peak > bound:
         out.append(dict(what="more than A+P+1 messages taken from the broker and not yet finished",
-                        observed=dict(peak=peak, at_us=when), expected="<= %d" % bound, sig=dict(kind="bound")))
+                        observed=dict(peak=peak, at_us=when, finished_after_their_callback_ended=late[:12],
+                                      never_finished_after_callback_end=sorted(i for i in cbended if pending.get(i))[:12]),
+                        expected="<= %d" % bound, sig=dict(kind="bound")))
     obs["_peak"] = peak
+    obs["_late"] = len(late)
     return out
 
 
@@ -78,6 +112,11 @@ def explore(ctx, rep, scs, label):
             rep.fail(f["what"], sc, observed=f["observed"], expected=f["expected"], sig=f["sig"])
         if R.limited(sc):
             rep.count("peak-bound:%d" % (o["_peak"] - (sc["A"] + sc["P"] + 1)))
+            if o.get("_late"):
+                rep.count("scenario:with-message-finished-after-its-callback-ended")     # never on the unchanged code
+        R.count_inputs(rep, sc)
+        nsf = sum(1 for m in sc["msgs"] if m.get("save_fail"))
+        rep.count("save-failures-in-scenario:%s%s" % (min(nsf, 4), "+" if nsf >= 4 else ""))
         rep.count("A=%s" % sc["A"])
         rep.count("P=%s" % sc["P"])
         rep.count("returned" if o["returned"] else "cut")
